@@ -240,7 +240,9 @@ func runCheck(args []string) int {
 			r := P.Verify(fn, sp, hooks)
 			var keep []*Obl
 			for _, o := range r.Obls {
-				if sk[o.Kind] {
+				// a function with a contract also has to prove the contract's own clauses (invariants the
+				// frame obligations lean on); plain run-time safety kinds are left to C01
+				if sk[o.Kind] || (sp != nil && logicalKind[o.Kind]) {
 					keep = append(keep, o)
 				}
 			}
@@ -286,10 +288,53 @@ func runCheck(args []string) int {
 	solveAll(results, quickMs, fullMs)
 	// vacuity canaries
 	canaryBad := runCanaries(results)
-	// structural scans
+	// every contract relied upon at a call site must itself be verified by some check (its function is
+	// listed in some props/*.json), or be a trusted library contract / interface contract (listed as assumed)
+	claimedAnywhere := allClaimedPatterns(verif)
 	var scanObls []*Obl
+	relied := map[string]bool{}
+	var ifaceUsed []string
+	for _, r := range results {
+		if r.gen == nil {
+			continue
+		}
+		for key := range r.gen.usedSpecs {
+			relied[key] = true
+		}
+	}
+	for _, key := range sortedKeys(relied) {
+		fs := P.specs[key]
+		if fs == nil || fs.Trusted {
+			continue
+		}
+		if fs.IsIface {
+			ifaceUsed = append(ifaceUsed, fs.Key)
+			continue
+		}
+		fn := P.funcs[key]
+		ok := false
+		if fn != nil && seen[fn] {
+			ok = true // verified by this very run
+		}
+		if fn != nil && !ok {
+			for _, pat := range claimedAnywhere {
+				if matchFunc(pat, fn) {
+					ok = true
+					break
+				}
+			}
+		}
+		if !ok {
+			scanObls = append(scanObls, &Obl{Name: "contract-verified:" + key, Kind: "contract-verified", Goal: "true", Guard: "true",
+				V: Verdict{Result: "unverified", Solver: "scan", Output: "the contract of " + key + " is used at a call site but its function is not verified by any check"}})
+		}
+	}
+	// structural scans
 	for _, sc := range pd.Scans {
 		scanObls = append(scanObls, runScan(P, sc)...)
+	}
+	for _, k := range uniq(ifaceUsed) {
+		pd.TrustedBase = append(pd.TrustedBase, "interface contract (assumed for every implementation; in-repo implementations are verified against their concrete contracts): "+k)
 	}
 
 	known, _ := loadKnown(filepath.Join(verif, "known_findings.txt"))
@@ -308,6 +353,7 @@ func runCheck(args []string) int {
 	var failedRes = map[*Obl]*FuncResult{}
 	var unsupported []string
 	var funcsUnder []string
+	nSwept := 0
 	var havocked, notes []string
 	nAssume := 0
 	solverTime := map[string]float64{}
@@ -325,6 +371,11 @@ func runCheck(args []string) int {
 		}
 		if !r.sweepOnly {
 			funcsUnder = append(funcsUnder, r.Name)
+		} else {
+			nSwept++
+			if r.Spec != nil {
+				funcsUnder = append(funcsUnder, r.Name)
+			}
 		}
 		nAssume += r.NAssume
 		for _, h := range r.Havocked {
@@ -446,6 +497,7 @@ func runCheck(args []string) int {
 			"samples":                  samples,
 			"functions_under_contract": funcsUnder,
 			"functions_count":          len(funcsUnder),
+			"functions_swept":          nSwept,
 			"discharged_by_solver":     solverWins,
 			"solver_time_s":            st,
 			"known_findings_seen":      knownSeen,
@@ -666,3 +718,26 @@ func axiomGlobals(P *Program, a *Axiom) []string {
 	walk(P.expand(a.E))
 	return sortedKeys(seen)
 }
+
+
+// allClaimedPatterns: the union of the function lists of all property definitions.
+func allClaimedPatterns(verif string) []string {
+	files, _ := filepath.Glob(filepath.Join(verif, "props", "*.json"))
+	var out []string
+	for _, f := range files {
+		b, err := os.ReadFile(f)
+		if err != nil {
+			continue
+		}
+		var pd PropDef
+		if json.Unmarshal(b, &pd) == nil {
+			out = append(out, pd.Functions...)
+			out = append(out, pd.ThoroughFunctions...)
+		}
+	}
+	return out
+}
+
+
+var logicalKind = map[string]bool{"inv-entry": true, "inv-preserve": true, "pre@call": true, "post": true, "frame": true,
+	"hint": true, "bridge": true, "variant": true, "bind": true}
